@@ -168,4 +168,26 @@ theorem hex_lyb_is_text (t : PStrTy) (hints : Nat) (v : Bytes) (hh : (checkHints
 example : unlyb macAddress (b "00:11:22:AA:BB:CC") = .ok (b "00:11:22:aa:bb:cc") ∧ unlyb macAddress (lyb (b "00:11:22:aa:bb:cc")) = .ok (b "00:11:22:aa:bb:cc") := by
   decide +kernel
 
+/-! ## relation to the `string` type (C03Pattern, `storePStr`) -/
+
+/-- `hex_accepts_string_values`: the typedefs are restrictions of `string` whose values are taken case-insensitively — whenever the
+    `string` plug-in with the same length and patterns stores the lower-cased C string of the input, the hex-string plug-in stores the
+    input, as that string. -/
+theorem hex_accepts_string_values (t : PStrTy) (hints : Nat) (s x : Bytes) (h : storePStr t hints (lower (cstr s)) = .ok x) :
+    store t hints s = .ok x :=
+  store_of_storePStr h
+
+/-- `hex_value_is_string_value`: a stored value is a value of the `string` type with the same restrictions (so `string_accept_iff` and
+    `string_chain_all_applied` of C03Pattern apply to it) — provided it passes `string_check_chars`, the one step of the `string`
+    plug-in this plug-in leaves out (for a type whose patterns admit only ASCII, like the four typedefs, the patterns imply it). -/
+theorem hex_value_is_string_value (t : PStrTy) (hints : Nat) (s x : Bytes) (h : store t hints s = .ok x) (hp : t.pats ≠ [])
+    (hc : checkChars (x.length + 1) x = true) : storePStr t hints x = .ok x :=
+  storePStr_of_store h hp hc
+
+example : storePStr macAddress Generated.LYD_HINT_DATA (lower (cstr (b "00:11:22:AA:bb:Cc"))) = .ok (b "00:11:22:aa:bb:cc") ∧
+    macAddress.pats ≠ [] ∧ checkChars ((b "00:11:22:aa:bb:cc").length + 1) (b "00:11:22:aa:bb:cc") = true := by decide +kernel
+-- the step that is left out: U+0001 is refused by the pattern here (`Pattern`), by the character check there (`BadUtf8`)
+example : store hexString Generated.LYD_HINT_DATA [1] = .error .Pattern ∧ storePStr hexString Generated.LYD_HINT_DATA [1] = .error (.val .BadUtf8) := by
+  decide +kernel
+
 end LyModel.Props.C03Hex
